@@ -93,9 +93,15 @@ Inductive case :=
      eff_* = what the constructed FailureCache ended up with *)
 | CasePipe (raw_size raw_init raw_max : Z) (disabled exact : bool) (eff_init eff_max : Z)
            (tab : list (qkey * N)) (steps : list pstep) (final : list (N * entry))
+  (* lab: a zone whose authority addresses behave as listed (0,1 healthy; 2,3,4 failure
+     rcode; 5 silent); zone failures published / cleared by Resolver.Resolve, its rcode (999 = error) *)
+| CaseLab (servers : list N) (records clears : Z) (rcode : N)
+  (* lab: one query while the resolver is at capacity (error class e), the same query
+     again once the load is gone: rcode, EDE, authority packets of each *)
+| CaseShed (e : rerr) (rc1 : N) (ede1 : option N) (up1 : Z) (rc2 : N) (ede2 : option N) (up2 : Z)
   (* expired-zone probe cohort: n concurrent queries for distinct names below one
      expired zone failure; observed downstream calls and how many got SERVFAIL+EDE13 *)
-| CaseProbe (tab : list (qkey * N)) (zone : name) (qclass : N) (names : list (name * bool)) (keys : list (option N)) (calls : Z) (cached : Z).
+| CaseProbe (tab : list (qkey * N)) (zone : name) (qclass : N) (names : list (name * bool * option scope)) (keys : list (option N)) (calls : Z) (cached : Z).
 
 (* ---------------------------------------------------------------- model run *)
 Section Run.
@@ -261,15 +267,27 @@ Definition check_case (x : case) : bool :=
       (c_init c =? eff_init) && (c_max c =? eff_max) &&
       let '(s, ok) := run_psteps (tab_H tab) c (mk_store [] disabled) [] 0 steps in
       ok && (if exact then same_map (s_map s) final else true)
+  | CaseLab servers records clears rcode =>
+      let bs := map (fun b => if (b <=? 1)%N then AHealthy else if (b =? 5)%N then ASilent else AFailureRcode) servers in
+      if zone_failure_published bs then (1 <=? records) && negb (rcode =? 0)%N
+      else (records =? 0) && (rcode =? 0)%N
+  | CaseShed e rc1 ede1 up1 rc2 ede2 up2 =>
+      (* shed before any packet leaves; the SERVFAIL is recorded unless the handler marks it *)
+      (rc1 =? rcode_servfail)%N && (up1 =? 0) &&
+      if cacheable_failure (handler_failure e)
+      then (rc2 =? rcode_servfail)%N && opt_N_eqb ede2 (Some ede_cached_error) && (up2 =? 0)
+      else (rc2 =? 0)%N && (1 <=? up2)
   | CaseProbe tab zone qclass names keys calls cached =>
       (* state: one expired zone failure; every name below it gets the zone's retry key *)
       let H := tab_H tab in
       let c := mk_cfg default_initial_ttl default_max_ttl in
       let '(m0, _, _) := fc_record_zone H c [] (mk_zkey zone qclass) prov_authority 0 in
       (* members flagged true also have an (expired) failure of their own *)
-      let m := fold_left (fun (acc : fmap) (nb : name * bool) => if snd nb then fst (fst (fc_record_question H c acc (mk_qkey (fst nb) 1 qclass false None) prov_response 0)) else acc) names m0 in
+      let key_of (nb : name * bool * option scope) := mk_qkey (fst (fst nb)) 1 qclass false (snd nb) in
+      let m := fold_left (fun (acc : fmap) (nb : name * bool * option scope) =>
+                 if snd (fst nb) then fst (fst (fc_record_question H c acc (key_of nb) prov_response 0)) else acc) names m0 in
       let now := c_init c + 1 in
-      let want := map (fun nb : name * bool => fc_retry_key H m (mk_qkey (fst nb) 1 qclass false None) now) names in
+      let want := map (fun nb => fc_retry_key H m (key_of nb) now) names in
       (length want =? length keys)%nat &&
       forallb (fun p => opt_N_eqb (fst p) (snd p)) (combine want keys) &&
       (calls =? 1) && (cached =? Z.of_nat (length names) - 1)
@@ -529,6 +547,12 @@ Definition spec_case (x : case) : bool :=
       (spec_floor <=? eff_init) && (eff_init <=? eff_max) && (eff_max <=? spec_ceiling) &&
       spec_psteps eff_init eff_max disabled [] [] 0 steps &&
       (if disabled then match final with [] => true | _ => false end else true)
+  | CaseLab servers records clears rcode =>
+      (* a zone failure only for a zone every one of whose servers failed to give a usable response *)
+      if (0 <? records) then forallb (fun b => (2 <=? b)%N) servers else true
+  | CaseShed e rc1 ede1 up1 rc2 ede2 up2 =>
+      (* shed load never becomes shared state: the next query is not answered from the failure cache *)
+      if shed_load e then negb (opt_N_eqb ede2 (Some ede_cached_error)) && (1 <=? up2) else true
   | CaseProbe tab zone qclass names keys calls cached =>
       (* the first retry after a backoff is led by a single probe *)
       (calls =? 1)
